@@ -741,7 +741,25 @@ pub fn campaign(run: &mut Run, target: &str, runs: u64, n_seeds: usize) {
                 }
             }
         } else if fname.starts_with("oom-") || fname.starts_with("timeout-") || fname.starts_with("leak-") {
-            run.inconclusive.push(format!("{name}: libFuzzer reported {fname} (resource limit, not a verdict): {}", a.display()));
+            // a resource limit of the fuzzer process (time per input, resident memory), possibly the machine's doing: the
+            // input is put through the deterministic oracle on a thread of its own with a generous real-time allowance;
+            // only what that oracle says counts
+            let (tx, rx) = std::sync::mpsc::channel();
+            let inp = input.clone();
+            let _ = std::thread::Builder::new().stack_size(64 << 20).spawn(move || {
+                let _ = tx.send(eval_input(&inp));
+            });
+            match rx.recv_timeout(std::time::Duration::from_secs(600)) {
+                Ok(Verdict::Pass(_)) => crate::engine::SOFT_NOTES.lock().unwrap().push(format!("{name}: libFuzzer reported {fname}; the input passes the deterministic oracle")),
+                Ok(v) => {
+                    run.custom(&name, &input, v);
+                    reported = true;
+                }
+                Err(_) => {
+                    run.custom(&name, &input, Verdict::Fail { signature: "oracle-does-not-return".into(), detail: format!("the input of {fname} did not come back from the oracle within 600 s") });
+                    reported = true;
+                }
+            }
         }
     }
     if !out.status.success() && !arts.iter().any(|a| a.file_name().and_then(|s| s.to_str()).map_or(false, |n| !n.starts_with("fuzz-") && !n.starts_with("slow-unit-"))) && !reported {
